@@ -121,9 +121,17 @@ Record mstate := mkm {
   m_s : list (key * Z);
   m_w : list (key * wdata);
   m_l : ghost_l;
-  m_last : option (call * outcome) }.
+  m_last : option (call * outcome);
+  (* spending installations with an enforcement logged at ledger 0: the property is stated for
+     ledgers >= 1 (at ledger 0 the code's saturating cut-off evicts the entries of the current
+     ledger), so ONLY the window clauses of these installations are suspended, until the
+     installation ends *)
+  m_taint : list key }.
 
-Definition m_init (n0 : Z) : mstate := {| m_now := n0; m_s := []; m_w := []; m_l := []; m_last := None |}.
+Definition m_init (n0 : Z) : mstate :=
+  {| m_now := n0; m_s := []; m_w := []; m_l := []; m_last := None; m_taint := [] |}.
+Definition mem_key (k : key) (l : list key) : bool := existsb (key_eqb k) l.
+Definition pl_gate (m : mstate) (k : key) : bool := (m_now m <? 1) || mem_key k (m_taint m).
 
 Definition is_okb (o : outcome) : bool := match o with Ok _ => true | Fail => false end.
 Definition is_true (o : outcome) : bool := match o with Ok (RBool true) => true | _ => false end.
@@ -133,7 +141,7 @@ Definition arg_eqb (a b : arg) : bool :=
   match a, b with AI128 x, AI128 y => x =? y | AOther, AOther => true | _, _ => false end.
 Definition context_eqb (a b : context) : bool :=
   match a, b with
-  | CContract f x, CContract g y => N.eqb f g && list_eqb arg_eqb x y
+  | CContract t f x, CContract t' g y => N.eqb t t' && N.eqb f g && list_eqb arg_eqb x y
   | CCreate, CCreate | CCreateCtor, CCreateCtor => true
   | _, _ => false
   end.
@@ -164,20 +172,22 @@ Definition implb' (a b : bool) : bool := negb a || b.
 Definition spec_outcome_ok (c : cfg) (m : mstate) (cl : call) (o : outcome) : bool :=
   let nw := m_now m in
   match cl with
-  | Advance _ => true
+  | Advance n => implb' (is_okb o) (0 <=? n)             (* the ledger only advances *)
   | CanEnforce PS a r _ sgs => outcome_eqb o (Ok (RBool (spec_s_can (m_s m) (a, r) sgs)))
   | CanEnforce PW a r _ sgs => outcome_eqb o (spec_w_can (m_w m) (a, r) sgs)
   | CanEnforce PL a r ctx sgs =>
       match transfer_amount ctx, sgs, kget (a, r) (m_l m) with
       | Some amt, _ :: _, Some i =>
-          (* true only if the transfer fits in the window under the limit in force ... *)
-          implb' (is_true o) (window_sum nw (gi_period i) (gi_log i) + amt <=? gi_limit i)
-          (* ... and, amounts being non-negative, exactly then (and if the history has room) *)
-          && (if nonneg_log (gi_log i) && (0 <=? amt) then
-                if window_sum nw (gi_period i) (gi_log i) + amt <=? MAX128
-                then outcome_eqb o (Ok (RBool (l_fits (max_history c) nw (gi_limit i) (gi_period i) (gi_log i) amt)))
-                else negb (is_true o)
-              else true)
+          pl_gate m (a, r) ||
+          match o with
+          (* an answer is the exact one: the transfer fits in the window under the limit in force
+             and the stored window has room for one more entry - whatever the signs of the amounts *)
+          | Ok (RBool b) => Bool.eqb b (l_fits (max_history c) nw (gi_limit i) (gi_period i) (gi_log i) amt)
+          | Ok RUnit => false
+          (* and with non-negative amounts in everything still stored there must be an answer *)
+          | Fail => negb (nonneg_log (stored i) && (0 <=? amt)
+                          && (window_sum nw (gi_period i) (gi_log i) + amt <=? MAX128))
+          end
       | _, _, _ => outcome_eqb o (Ok (RBool false))      (* non-transfer, no signer, not installed *)
       end
   | Enforce p au a r ctxs sgs =>
@@ -191,12 +201,15 @@ Definition spec_outcome_ok (c : cfg) (m : mstate) (cl : call) (o : outcome) : bo
            | PL =>
                match kget (a, r) (m_l m) with
                | Some i =>
-                   implb' (is_okb o) (nonempty sgs && l_batch_ok nw (gi_limit i) (gi_period i) ctxs (gi_log i))
-                   && (if nonneg_log (gi_log i) && nonneg_ctxs ctxs then
-                         Bool.eqb (is_okb o)
-                           (has_auth au a && nonempty sgs &&
-                            l_batch_exact (max_history c) nw (gi_limit i) (gi_period i) ctxs (gi_log i))
-                       else true)
+                   pl_gate m (a, r) ||
+                   (implb' (is_okb o)
+                      (nonempty sgs && l_batch_ok nw (gi_limit i) (gi_period i) ctxs (gi_log i)
+                       && l_batch_exact (max_history c) nw (gi_limit i) (gi_period i) ctxs (gi_log i))
+                    && (if nonneg_log (stored i) && nonneg_ctxs ctxs then
+                          Bool.eqb (is_okb o)
+                            (has_auth au a && nonempty sgs &&
+                             l_batch_exact (max_history c) nw (gi_limit i) (gi_period i) ctxs (gi_log i))
+                        else true))
                | None => negb (is_okb o)
                end
            end
@@ -223,7 +236,11 @@ Definition spec_outcome_ok (c : cfg) (m : mstate) (cl : call) (o : outcome) : bo
               | None => false
               end)
              (negb (is_okb o))
-  | LInstall au a _ _ _ | LSetLimit au a _ _ => implb' (negb (has_auth au a)) (negb (is_okb o))
+  | LInstall au a r _ _ =>
+      (* also refused over a live installation: a re-install would silently restart the window *)
+      implb' (negb (has_auth au a) || match kget (a, r) (m_l m) with Some _ => true | None => false end)
+             (negb (is_okb o))
+  | LSetLimit au a _ _ => implb' (negb (has_auth au a)) (negb (is_okb o))
   end.
 
 Definition spec_events (m : mstate) (cl : call) (o : outcome) : list event :=
@@ -242,7 +259,13 @@ Definition m_next (m : mstate) (cl : call) (o : outcome) : mstate :=
      m_s := ghost_s_step (m_s m) cl o;
      m_w := ghost_w_step (m_w m) cl o;
      m_l := ghost_l_step (m_now m) (m_l m) cl o;
-     m_last := Some (cl, o) |}.
+     m_last := Some (cl, o);
+     m_taint := match o, cl with
+                | Ok _, Enforce PL _ a r (_ :: _) _ => if m_now m <? 1 then (a, r) :: m_taint m else m_taint m
+                | Ok _, LInstall _ a r _ _ | Ok _, Uninstall PL _ a r =>
+                    filter (fun k => negb (key_eqb k (a, r))) (m_taint m)
+                | _, _ => m_taint m
+                end |}.
 
 Definition exp_obs (u : universe) (m : mstate) (evs : list event) : obs :=
   {| o_s := map (fun k => kget k (m_s m)) (u_keys u);
@@ -262,10 +285,42 @@ Definition config_inv (m : mstate) (cl : call) : bool :=
          end
   end.
 
+(* observations compared with the prediction; the spending entry of a suspended installation and
+   the events of a suspended call are not compared *)
+Fixpoint lobs_eqb_masked (keys taint : list key) (a b : list lobs) : bool :=
+  match keys, a, b with
+  | k :: kr, x :: ar, y :: br => (mem_key k taint || opt_eqb lobs1_eqb x y) && lobs_eqb_masked kr taint ar br
+  | [], [], [] => true
+  | _, _, _ => false
+  end.
+Definition obs_eqb_m (keys taint : list key) (skip_ev : bool) (a b : obs) : bool :=
+  list_eqb (opt_eqb Z.eqb) (o_s a) (o_s b)
+  && list_eqb (opt_eqb wobs1_eqb) (o_w a) (o_w b)
+  && lobs_eqb_masked keys taint (o_l a) (o_l b)
+  && (skip_ev || list_eqb event_eqb (o_ev a) (o_ev b)).
+
+(* the call stays inside the universe that is observed after every call (otherwise "no trace",
+   "read-only" and "only its own entry" could not be checked for it) *)
+Definition wf_call (u : universe) (cl : call) : bool :=
+  match call_key cl with None => true | Some k => mem_key k (u_keys u) end
+  && match cl with
+     | WInstall _ _ _ ws _ => forallb (fun kv => existsb (N.eqb (fst kv)) (u_sgs u)) ws
+     | WSetWeight _ _ _ sg _ => existsb (N.eqb sg) (u_sgs u)
+     | _ => true
+     end.
+
+Definition call_gate (m : mstate) (cl : call) : bool :=
+  match cl with
+  | CanEnforce PL a r _ _ | Enforce PL _ a r _ _ => pl_gate m (a, r)
+  | _ => false
+  end.
+
 Definition mon_step (c : cfg) (u : universe) (m : mstate) (it : item) : bool * mstate :=
   let '(cl, o, ob) := it in
   let m' := m_next m cl o in
-  (spec_outcome_ok c m cl o && obs_eqb (exp_obs u m' (spec_events m cl o)) ob && config_inv m' cl, m').
+  (wf_call u cl && spec_outcome_ok c m cl o
+   && obs_eqb_m (u_keys u) (m_taint m') (call_gate m cl) (exp_obs u m' (spec_events m cl o)) ob
+   && config_inv m' cl, m').
 
 Fixpoint mon_from (c : cfg) (u : universe) (m : mstate) (t : list item) (i : N) : N :=
   match t with
@@ -273,10 +328,10 @@ Fixpoint mon_from (c : cfg) (u : universe) (m : mstate) (t : list item) (i : N) 
   | it :: r => let '(b, m') := mon_step c u m it in if b then mon_from c u m' r (N.succ i) else N.succ i
   end.
 
-(* the property is stated for ledgers >= 1 (at ledger 0 the code's saturating cutoff evicts the
-   entries of the current ledger); traces starting at ledger 0 are only diffed *)
+(* a header that makes no sense is a failure at the first call *)
+Definition hdr_ok (h : hdr) : bool := (0 <=? h_start h) && (h_start h <=? MAXU32) && (0 <? h_max_history h).
 Definition mon_all (h : hdr) (t : list item) : N :=
-  if 1 <=? h_start h then mon_from (hdr_cfg h) (hdr_u h) (m_init (h_start h)) t 0%N else 0%N.
+  if hdr_ok h then mon_from (hdr_cfg h) (hdr_u h) (m_init (h_start h)) t 0%N else 1%N.
 
 Definition check (t : trace) : verdict :=
   let h := fst t in
@@ -287,7 +342,7 @@ Definition check_all (ts : list trace) : list verdict := map check ts.
 (* ---------- the monitor rejects hand-made bad traces (model-independent) ---------- *)
 Module Examples.
   Definition h1 : hdr := mkhdr 1000 5 [(1%N, 1%N)] [0%N; 1%N; 2%N].
-  Definition tr (amt : Z) : context := CContract 0%N [AOther; AOther; AI128 amt].
+  Definition tr (amt : Z) : context := CContract 0%N 0%N [AOther; AOther; AI128 amt].
   Definition none3 := EFull [None] [None] [None] [].
   Definition mon (t : trace) : N := snd (fst (check t)).
 
@@ -392,7 +447,7 @@ Module Examples.
   (* a non-transfer context is let through by the spending policy *)
   Definition non_transfer : trace := (h1,
     [ (LInstall [1%N] 1%N 1%N 100 10, Ok RUnit, EFull [None] [None] [Some (100, 10, (0%N, []), 0)] []);
-      (CanEnforce PL 1%N 1%N (CContract 1%N [AOther; AOther; AI128 5]) [0%N], Ok (RBool true), ESame []) ]).
+      (CanEnforce PL 1%N 1%N (CContract 0%N 1%N [AOther; AOther; AI128 5]) [0%N], Ok (RBool true), ESame []) ]).
   Example non_transfer_rejected : mon non_transfer = 2%N.
   Proof. vm_compute. reflexivity. Qed.
 
@@ -409,5 +464,76 @@ Module Examples.
       (CanEnforce PL 1%N 1%N (tr 100) [0%N], Ok (RBool false), ESame []);
       (Enforce PL [1%N] 1%N 1%N [tr 100] [0%N], Fail, ESame []) ]).
   Example too_strict_rejected : mon too_strict = 2%N.
+  Proof. vm_compute. reflexivity. Qed.
+  (* ---- traces of the adversarial review (/verif/.cache/review/C14.md) ---- *)
+  Definition h0 : hdr := mkhdr 1000 0 [(1%N, 1%N)] [0%N; 1%N; 2%N].
+  Definition L0 : eitem := (LInstall [1%N] 1%N 1%N 100 10, Ok RUnit, EFull [None] [None] [Some (100, 10, (0%N, []), 0)] []).
+  (* a header starting at ledger 0 does not switch the monitor off: 2-of-3 accepted with one signer *)
+  Definition A1 : trace := (h0,
+    [ (SInstall [1%N] 1%N 1%N [0%N; 1%N; 2%N] 2, Ok RUnit, EFull [Some 2] [None] [None] []);
+      (CanEnforce PS 1%N 1%N (tr 1) [0%N], Ok (RBool true), ESame []) ]).
+  Example A1_rejected : mon A1 = 2%N.
+  Proof. vm_compute. reflexivity. Qed.
+  (* ... nor for enforcements made after the trace has advanced to ledgers >= 1 *)
+  Definition A2 : trace := (h0,
+    [ (Advance 100, Ok RUnit, ESame []); L0;
+      (Enforce PL [1%N] 1%N 1%N [tr 60] [0%N], Ok RUnit, EFull [None] [None] [Some (100, 10, (0%N, [(60, 100)]), 60)] [EvEnforced PL 1%N 1%N 0 60 60]);
+      (Enforce PL [1%N] 1%N 1%N [tr 60] [0%N], Ok RUnit, EFull [None] [None] [Some (100, 10, (0%N, [(60, 100)]), 120)] [EvEnforced PL 1%N 1%N 0 60 120]) ]).
+  Example A2_rejected : mon A2 = 4%N.
+  Proof. vm_compute. reflexivity. Qed.
+  Definition A3 : trace := (h0,
+    [ (SInstall [2%N] 1%N 1%N [0%N] 0, Ok RUnit, EFull [Some 0] [None] [None] []) ]).
+  Example A3_rejected : mon A3 = 1%N.
+  Proof. vm_compute. reflexivity. Qed.
+  (* what the code does AT ledger 0 (60 + 60 under a limit of 100: the first entry is evicted at
+     once) is outside the quantifier and only suspends the window clauses of that installation;
+     every other clause stays on (here: a zero threshold accepted later in the same trace) *)
+  Definition Z0 : trace := (h0,
+    [ L0;
+      (Enforce PL [1%N] 1%N 1%N [tr 60] [0%N], Ok RUnit, EFull [None] [None] [Some (100, 10, (0%N, [(60, 0)]), 60)] [EvEnforced PL 1%N 1%N 0 60 60]);
+      (Enforce PL [1%N] 1%N 1%N [tr 60] [0%N], Ok RUnit, EFull [None] [None] [Some (100, 10, (1%N, [(60, 0)]), 60)] [EvEnforced PL 1%N 1%N 0 60 60]);
+      (Advance 5, Ok RUnit, ESame []);
+      (Enforce PL [2%N] 1%N 1%N [tr 1] [0%N], Fail, ESame []);
+      (SSetThreshold [1%N] 1%N 1%N [0%N] 0, Ok RUnit, EFull [Some 0] [None] [Some (100, 10, (0%N, []), 60)] []) ]).
+  Example Z0_only_window_suspended : mon Z0 = 6%N.
+  Proof. vm_compute. reflexivity. Qed.
+  (* the ledger goes backwards *)
+  Definition T9 : trace := (h1, [ (Advance 10, Ok RUnit, ESame []); (Advance (-10), Ok RUnit, ESame []) ]).
+  Example T9_rejected : mon T9 = 2%N.
+  Proof. vm_compute. reflexivity. Qed.
+  (* install accepted over a live installation: 100 + 100 in one ledger under a constant limit 100 *)
+  Definition H1 : trace := (h1,
+    [ L0;
+      (Enforce PL [1%N] 1%N 1%N [tr 100] [0%N], Ok RUnit, EFull [None] [None] [Some (100, 10, (0%N, [(100, 5)]), 100)] [EvEnforced PL 1%N 1%N 0 100 100]);
+      (LInstall [1%N] 1%N 1%N 100 10, Ok RUnit, EFull [None] [None] [Some (100, 10, (1%N, []), 0)] []);
+      (Enforce PL [1%N] 1%N 1%N [tr 100] [0%N], Ok RUnit, EFull [None] [None] [Some (100, 10, (0%N, [(100, 5)]), 100)] [EvEnforced PL 1%N 1%N 0 100 100]) ]).
+  Example H1_rejected : mon H1 = 3%N.
+  Proof. vm_compute. reflexivity. Qed.
+  (* one accepted negative amount does not switch exactness off: with an empty window 10 <= 100
+     must be answered true *)
+  Definition N1b : trace := (h1,
+    [ L0;
+      (Enforce PL [1%N] 1%N 1%N [tr (-5)] [0%N], Ok RUnit, EFull [None] [None] [Some (100, 10, (0%N, [(-5, 5)]), -5)] [EvEnforced PL 1%N 1%N 0 (-5) (-5)]);
+      (Advance 1000, Ok RUnit, ESame []);
+      (CanEnforce PL 1%N 1%N (tr 10) [0%N], Ok (RBool false), ESame []) ]).
+  Example N1b_rejected : mon N1b = 4%N.
+  Proof. vm_compute. reflexivity. Qed.
+  (* calls outside the observed universe / an empty universe *)
+  Definition B1 : trace := (h1, [ (LInstall [2%N] 2%N 1%N 100 10, Ok RUnit, ESame []) ]).
+  Example B1_rejected : mon B1 = 1%N.
+  Proof. vm_compute. reflexivity. Qed.
+  Definition B2 : trace := (mkhdr 1000 5 [] [],
+    [ (LInstall [1%N] 1%N 1%N 100 10, Ok RUnit, ESame []);
+      (Enforce PL [1%N] 1%N 1%N [tr 101] [0%N], Fail, EFull [] [] [] []) ]).
+  Example B2_rejected : mon B2 = 1%N.
+  Proof. vm_compute. reflexivity. Qed.
+  (* a budget per token contract: 60 of token 0 and 60 of token 1 in one window, limit 100 *)
+  Definition per_token : trace := (h1,
+    [ L0;
+      (Enforce PL [1%N] 1%N 1%N [CContract 0%N 0%N [AOther; AOther; AI128 60]] [0%N], Ok RUnit,
+         EFull [None] [None] [Some (100, 10, (0%N, [(60, 5)]), 60)] [EvEnforced PL 1%N 1%N 0 60 60]);
+      (Enforce PL [1%N] 1%N 1%N [CContract 1%N 0%N [AOther; AOther; AI128 60]] [0%N], Ok RUnit,
+         EFull [None] [None] [Some (100, 10, (0%N, [(60, 5)]), 120)] [EvEnforced PL 1%N 1%N 0 60 60]) ]).
+  Example per_token_rejected : mon per_token = 3%N.
   Proof. vm_compute. reflexivity. Qed.
 End Examples.
